@@ -13,6 +13,7 @@ package main
 import (
 	"bytes"
 	"fmt"
+	"math"
 	"strings"
 
 	"hop.computer/hop/tubes"
@@ -157,5 +158,29 @@ func genSendOne(r *hv.Rand) {
 			calls = append(calls, c)
 		}
 		runSendOne("sendone-random", calls, true)
+	}
+}
+
+// ---- windowSize = uint16(cwndSize): the conversion at and beyond 65536 (comparison with the model's
+// f_to_u16; see docs/C08.md "windowSize >= 1").  cwndSize is injected: the histories that reach these values
+// need ~2*10^9 acknowledged frames.
+func genWindowWrap(r *hv.Rand) {
+	vals := []float64{9.5, 10, 10.999, 999.99, 1000, 32768.5, 65535, 65535.99999, 65536, 65536.5, 65536.99999, 65537, 70000.25,
+		131071.5, 131072, 131072.75, 196608.25, 1048579.5}
+	for i := 0; i < hv.Scale(30, 300); i++ {
+		vals = append(vals, float64(5+r.Intn(200000))+float64(r.Intn(1024))/1024)
+	}
+	for _, c := range vals {
+		w, rto, nw, aerr := tubes.VerifWindowAfterAck(c)
+		fr, ex := math.Frexp(c)
+		m := int64(fr * (1 << 53))
+		e := int64(ex - 53)
+		note := ""
+		if w == 0 {
+			note = " — windowSize 0: framesToSend answers 0 for the timer case and for new data, the sender can transmit nothing"
+		}
+		hv.Emit(hv.Case{Fn: "c08w_ok", Coq: hv.Tuple(hv.Z(m), hv.Z(e), hv.N(uint64(w)), hv.Z(int64(rto)), hv.Z(int64(nw))),
+			Class: "window-conversion-injected-cwnd", Desc: fmt.Sprintf("sender in AIMD with injected cwndSize=%v (= %d * 2^%d), one small frame written and acknowledged, two more written: windowSize=%d framesToSend(timer)=%d framesToSend(new)=%d ackErr=%v%s", c, m, e, w, rto, nw, aerr, note),
+			Spec: true, NT: c >= 65536})
 	}
 }
